@@ -105,11 +105,43 @@ type Out struct {
 	V   int64  `json:"v,omitempty"`
 }
 
+// Wiring is the record tools/wiring2coq extracted from app/app.go for one chain kind: how app.Run
+// derives the start block and what it hands to the listener and chain constructors.  lifetime()
+// composes the real calls accordingly.
 type Wiring struct {
 	ReadsStore bool `json:"reads_store"`
 	HeadIfNil  bool `json:"head_if_nil"`
-	Aligns     bool `json:"aligns_to_interval"`
-	Passes     bool `json:"passes_start_to_chain"`
+	// second argument of chains.CalculateStartingBlock: interval | confirmations | none | other
+	AlignArg string `json:"align_arg"`
+	// which start values go through that call: one known beforehand (block store / configuration),
+	// the head substituted for nil
+	AlignsKnown bool `json:"aligns_known"`
+	AlignsHead  bool `json:"aligns_head"`
+	// start block given to NewXChain: start (the derived one) | configured | nil | other
+	ChainArg string `json:"chain_arg"`
+	// block interval / confirmation depth the EVM and Substrate listeners are constructed with:
+	// interval | confirmations | none (not applicable) | other
+	ListenerStep string `json:"listener_step"`
+	ListenerConf string `json:"listener_conf"`
+	// derived flags (the record's former shape)
+	Aligns bool `json:"aligns_to_interval"`
+	Passes bool `json:"passes_start_to_chain"`
+	// what the translator could not recognise (the parts concerned say "other")
+	Error string `json:"error,omitempty"`
+}
+
+// Composable: can lifetime() compose app.Run's wiring as this record describes it?
+func (w Wiring) Composable() error {
+	for _, s := range []string{w.AlignArg, w.ChainArg, w.ListenerStep, w.ListenerConf} {
+		if s == "other" || s == "" {
+			msg := w.Error
+			if msg == "" {
+				msg = "incomplete wiring record"
+			}
+			return errors.New(msg)
+		}
+	}
+	return nil
 }
 
 // Dep is a deposit on the fake chain (C19).  For BTC, Pay lists the indices (into Resources) of the
@@ -132,8 +164,10 @@ type Msg struct {
 
 const DomainID = uint8(1)
 
-// LoadWiring reads the record the translator extracted from app/app.go.
-func LoadWiring() map[string]Wiring {
+// LoadWiringLenient reads the records the translator extracted from app/app.go; bad[kind] says why
+// the wiring of that chain kind cannot be composed by this harness (the translator did not recognise
+// it and has reported so).
+func LoadWiringLenient() (w map[string]Wiring, bad map[string]error) {
 	dir := os.Getenv("VERIF_DIR")
 	if dir == "" {
 		dir = "/verif"
@@ -142,9 +176,30 @@ func LoadWiring() map[string]Wiring {
 	if err != nil {
 		panic("scanstack: wiring record missing (tools/wiring2coq.py did not run): " + err.Error())
 	}
-	var w map[string]Wiring
 	if err := json.Unmarshal(b, &w); err != nil {
 		panic(err)
+	}
+	bad = map[string]error{}
+	for _, k := range []string{"evm", "substrate", "btc"} {
+		r, ok := w[k]
+		if !ok {
+			bad[k] = errors.New("no wiring record")
+		} else if err := r.Composable(); err != nil {
+			bad[k] = err
+		}
+	}
+	return w, bad
+}
+
+// LoadWiring is LoadWiringLenient for runners that cannot do without any chain kind: the process ends
+// here (before any case is run) if a record cannot be composed.
+func LoadWiring() map[string]Wiring {
+	w, bad := LoadWiringLenient()
+	for k, err := range bad {
+		fmt.Fprintf(os.Stderr, "scanstack: the start-block wiring of app.go (%s) is not one this harness can compose: %v\n", k, err)
+	}
+	if len(bad) > 0 {
+		os.Exit(3)
 	}
 	return w
 }
@@ -830,6 +885,17 @@ func Project(m *message.Message) Msg {
 	return out
 }
 
+// calculateStartingBlock is the real chains.CalculateStartingBlock; a panic inside it (big.Int.Mod by
+// zero) is app.Run's panic: the process never gets as far as the listener.
+func calculateStartingBlock(start, by *big.Int) (res *big.Int, err error) {
+	defer func() {
+		if p := recover(); p != nil {
+			res, err = nil, fmt.Errorf("CalculateStartingBlock panicked: %v", p)
+		}
+	}()
+	return chains.CalculateStartingBlock(start, by)
+}
+
 // lifetime = one process: the wiring of app.Run for this chain kind, then PollEvents.
 // Returns "crash" (start another one), "exhausted" or "dead".
 func lifetime(env *Env, db *kv, cfg Cfg, w Wiring, msgChan chan []*message.Message, opt Options) string {
@@ -841,6 +907,22 @@ func lifetime(env *Env, db *kv, cfg Cfg, w Wiring, msgChan chan []*message.Messa
 	interval := big.NewInt(cfg.Ival)
 	confirmations := big.NewInt(cfg.Conf)
 	logC := zerolog.Nop().With()
+	if err := w.Composable(); err != nil {
+		panic("scanstack: wiring record cannot be composed: " + err.Error())
+	}
+	// the quantity app.Run passes where a block count is expected (a fresh big.Int per use: the
+	// callee may keep or modify it)
+	quantity := func(src string, dflt *big.Int) *big.Int {
+		switch src {
+		case "interval":
+			return big.NewInt(cfg.Ival)
+		case "confirmations":
+			return big.NewInt(cfg.Conf)
+		case "none":
+			return dflt
+		}
+		panic("scanstack: wiring source " + src)
+	}
 
 	// the listener and the client app.Run would ask for the head
 	var l listenerIface
@@ -866,7 +948,8 @@ func lifetime(env *Env, db *kv, cfg Cfg, w Wiring, msgChan chan []*message.Messa
 		if cfg.NH == 0 {
 			hs = nil
 		}
-		l = corelistener.NewEVMListener(client, hs, bs, nopMetrics{}, DomainID, 0, confirmations, interval)
+		l = corelistener.NewEVMListener(client, hs, bs, nopMetrics{}, DomainID, 0,
+			quantity(w.ListenerConf, confirmations), quantity(w.ListenerStep, interval))
 		latestBlock = mainRPC
 	case "substrate":
 		conn := &subConn{env: env}
@@ -879,7 +962,7 @@ func lifetime(env *Env, db *kv, cfg Cfg, w Wiring, msgChan chan []*message.Messa
 		if cfg.NH == 0 {
 			hs = nil
 		}
-		l = coresublistener.NewSubstrateListener(conn, hs, bs, nopMetrics{}, DomainID, 0, interval)
+		l = coresublistener.NewSubstrateListener(conn, hs, bs, nopMetrics{}, DomainID, 0, quantity(w.ListenerStep, interval))
 		latestBlock = mainRPC
 	case "btc":
 		res, fee := BtcResources(opt.BtcResources)
@@ -906,14 +989,18 @@ func lifetime(env *Env, db *kv, cfg Cfg, w Wiring, msgChan chan []*message.Messa
 	}
 
 	// --- app.Run's start-block wiring, shape per the extracted record --------------------------------
+	// config.StartBlock: ONE *big.Int per process, as in app.Run - GetStartBlock may return this very
+	// pointer and CalculateStartingBlock works in place
+	configured := big.NewInt(cfg.CStart)
 	var start *big.Int
 	if w.ReadsStore {
 		var err error
-		start, err = bs.GetStartBlock(DomainID, big.NewInt(cfg.CStart), cfg.Latest, cfg.Fresh)
+		start, err = bs.GetStartBlock(DomainID, configured, cfg.Latest, cfg.Fresh)
 		if err != nil {
 			panic(err)
 		}
 	}
+	fromHead := false
 	if start == nil && w.HeadIfNil {
 		for start == nil {
 			h, ok, status := latestBlock()
@@ -926,17 +1013,24 @@ func lifetime(env *Env, db *kv, cfg Cfg, w Wiring, msgChan chan []*message.Messa
 				start = big.NewInt(h)
 			}
 		}
+		fromHead = true
 	}
-	if w.Aligns {
+	if w.AlignArg != "none" && ((fromHead && w.AlignsHead) || (!fromHead && w.AlignsKnown)) {
 		var err error
-		start, err = chains.CalculateStartingBlock(start, interval)
+		start, err = calculateStartingBlock(start, quantity(w.AlignArg, nil))
 		if err != nil {
 			return "dead" // app.Run panics on every start
 		}
 	}
 	var toChain *big.Int
-	if w.Passes {
+	switch w.ChainArg {
+	case "start":
 		toChain = start
+	case "configured":
+		toChain = configured
+	case "nil":
+	default:
+		panic("scanstack: wiring chain_arg " + w.ChainArg)
 	}
 	rec := &startRecorder{env: env, inner: l}
 	var c poller
@@ -946,7 +1040,7 @@ func lifetime(env *Env, db *kv, cfg Cfg, w Wiring, msgChan chan []*message.Messa
 	case "substrate":
 		c = coresub.NewSubstrateChain(rec, nil, nil, DomainID, toChain)
 	case "btc":
-		c = newBtcChain(rec, toChain, w.Passes)
+		c = newBtcChain(rec, toChain, w.ChainArg != "nil")
 	}
 	ctx, cancel := context.WithCancel(context.Background())
 	defer cancel()
